@@ -43,6 +43,11 @@ def sibling_transfer(ctx, rule, fi, key_prefix):
             problems.append(f"`{U(e)[:60]}` does not add into the target")
     ctx.check(not problems, rule, f"{key_prefix}:frequencies-errors2-twins",
               f"{len(f_st)} transfer statement pairs, identical up to the array names, all +=", " ; ".join(sorted(set(problems))[:3]), fi.where)
+    guards = [n.test for n in ast.walk(fi.node) if isinstance(n, (ast.If, ast.While))]
+    value_dep = [U(g)[:70] for g in guards if any(isinstance(c, ast.Call) and (U(c.func).split(".")[-1] in ("any", "all", "sum", "count_nonzero", "max", "min"))
+                                                   for c in ast.walk(g))]
+    ctx.check(not value_dep, rule, f"{key_prefix}:guards-shape-only", "the transfer is skipped only for missing / empty arrays (shape tests), never depending on the contents",
+              f"a guard of the transfer depends on the bin contents: {value_dep} - e.g. all-zero frequencies would skip moving the (non-zero) errors", fi.where)
     # index construction: only position `axis` differs from slice(None)
     okidx = True
     for n in ast.walk(fi.node):
